@@ -188,6 +188,24 @@ impl Big {
         }
         Big { neg: self.neg, mag }
     }
+    /// hexadecimal magnitude with sign (for the Python cross-check of the oracle)
+    pub fn to_hex(&self) -> String {
+        if self.mag.is_empty() {
+            return "0".into();
+        }
+        let mut s = String::new();
+        if self.neg {
+            s.push('-');
+        }
+        for (i, l) in self.mag.iter().rev().enumerate() {
+            if i == 0 {
+                s.push_str(&format!("{:x}", l));
+            } else {
+                s.push_str(&format!("{:08x}", l));
+            }
+        }
+        s
+    }
     pub fn bit_len(&self) -> u64 {
         match self.mag.last() {
             None => 0,
@@ -305,6 +323,9 @@ impl Rat {
     }
     pub fn is_zero(&self) -> bool {
         self.num.is_zero()
+    }
+    pub fn dump(&self) -> serde_json::Value {
+        serde_json::json!({"num": self.num.to_hex(), "den": self.den.to_hex(), "exp": self.exp, "f64": format!("{:016x}", self.to_f64().to_bits())})
     }
     pub fn signum(&self) -> i32 {
         self.num.signum()
